@@ -196,23 +196,41 @@ class SimFS:
 
     def open(self, file, mode='r', buffering=-1, encoding=None, errors=None, newline=None,
              closefd=True, opener=None):
+        """The builtin's signature and semantics for the modes a text tool can reasonably use: r / w / a / x,
+        text or binary ('b'), so that code which opens its files differently than the pinned tree does (binary
+        handle plus its own encoding, append, exclusive creation) is judged by what it writes, not by a
+        limitation of the simulated file system.  *opener* and '+' modes are not simulated."""
         path = str(file)
         self.opened.append((path, mode))
         enc = encoding or 'utf-8'     # the simulated platform default
-        if 'b' in mode:
-            raise ValueError('SimFS: binary mode not simulated')
-        if mode.startswith('r'):
+        binary = 'b' in mode
+        kind = mode.replace('b', '').replace('t', '')
+        if binary and (encoding is not None or newline is not None or errors is not None):
+            raise ValueError("binary mode doesn't take an encoding, errors or newline argument")
+        if kind == 'r':
             if path not in self.files:
                 raise FileNotFoundError(errno.ENOENT, 'No such file (simulated)', path)
-            fh, raw = text_reader(self.files[path], self.plan_for(path), self.k,
+            if binary:
+                raw = SimRawReader(bytes(self.files[path]), self.plan_for(path), self.k, path)
+                return io.BufferedReader(raw, buffer_size=self.plan_for(path).buffer_size)
+            fh, raw = text_reader(bytes(self.files[path]), self.plan_for(path), self.k,
                                   encoding=enc, newline=newline, name=path)
+            if errors is not None:
+                fh.reconfigure(errors=errors)
             return fh
-        if mode.startswith('w'):
-            fh, raw = text_writer(self.plan_for(path), self.k, encoding=enc,
-                                  newline=newline, name=path, seekable=True)
+        if kind in ('w', 'a', 'x'):
+            if kind == 'x' and path in self.files:
+                raise FileExistsError(errno.EEXIST, 'File exists (simulated)', path)
+            plan = self.plan_for(path)
+            raw = SimRawWriter(plan, self.k, path, seekable=True)
+            if kind == 'a' and path in self.files:
+                raw.durable += bytes(self.files[path])
             self.writers[path] = raw
             self.files[path] = raw.durable   # live view of the durable bytes
-            return fh
+            buf = io.BufferedWriter(raw, buffer_size=plan.buffer_size)
+            if binary:
+                return buf
+            return io.TextIOWrapper(buf, encoding=enc, newline=newline, errors=errors)
         raise ValueError(f'SimFS: mode {mode!r} not simulated')
 
     def durable(self, path) -> bytes:
